@@ -5,7 +5,7 @@ from .readerlib import both_modes, dump_dict
 
 ID = 'C16'
 TARGETS = ['theories/Properties/C16.vo']
-THEOREMS = []
+THEOREMS = core.theorems_of(ID)
 LEVEL = ('hand model of the UBJSON subset reader/writer (Model/Ubjson.v); proved: read(write t) = t for every well-formed tree (strings <= 255 bytes of UTF-8, '
          'i32 integers, nested maps with distinct keys, nesting within the reader\'s limit), insertion order kept, so writing what was read reproduces the bytes; '
          'serde_json preserve_order is read from Cargo.toml; model tied to the code by differential runs on random trees embedded in replays; the JSON copy in '
